@@ -24,6 +24,14 @@ import warnings
 from . import gate
 
 TICK = gate.TICK
+
+
+def _quiet_unraisable(unraisable):
+    """Coroutines the library created for a caller that never completed (K1 runs) are collected
+    un-awaited when a worker process exits; that is not an error of the check."""
+
+
+sys.unraisablehook = _quiet_unraisable
 MODES = ('idle', 'forever', 'race', 'own', 'closed')
 FORMS = ('coro', 'task', 'future')
 
